@@ -139,7 +139,7 @@ func (ck *verifC11Checker) rawCase(toks, f32, bits32, f64, bits64, sign string, 
 				return fmt.Errorf("bad flag %q", c.flag)
 			}
 			if c.ok && c.flag != "r" && c.got != c.want {
-				ck.mismatch(fmt.Sprintf("raw%d-bit-pattern", c.w), b, c.want, c.got, "spec input "+toks)
+				ck.mismatch(fmt.Sprintf("raw%d-bit-pattern", c.w), b, strconv.FormatUint(c.want, 10), strconv.FormatUint(c.got, 10), "spec input "+toks)
 			}
 			ck.rawDecodeBack(b, c.w, c.ok, c.got)
 		}
